@@ -5,5 +5,6 @@ import "verif/harness/authsim"
 
 func main() {
 	authsim.Main(&authsim.Profile{Module: "Obs.C10", Runs: 480, Parses: 60, TimedPct: 40, FaultPct: 20,
-		OddPct: 10, ConcPct: 30, HoldPct: 18, CfgPct: 8, HostPct: 4, BodyPct: 10, Unlimited: false})
+		OddPct: 10, ConcPct: 30, HoldPct: 18, CfgPct: 8, HostPct: 4, BodyPct: 10, Unlimited: false,
+		ReusePct: 8, CtxPct: 10, CancelPct: 3, RedirPct: 5, SweepPct: 8, DirectedPct: 12})
 }
